@@ -28,7 +28,7 @@ def main():
     try:
         drv = importlib.import_module('harness.drivers.' + pid.lower())
         if a.replay:
-            return drv.replay(a.replay)
+            return show_replay(pid, drv, a.replay)
         chk = core.Check(pid, a.tier, a.seed, getattr(drv, 'LEVEL', 'model_checking'))
         drv.run(chk)
         return chk.finish()
@@ -39,6 +39,28 @@ def main():
         traceback.print_exc()
         print('MACHINERY-FAILURE property=%s: unexpected exception in the harness' % pid)
         return 2
+
+
+def show_replay(pid, drv, path):
+    """A replay file holds the failing input of one violation class (signature, description with the concrete input, payload).
+    Print it; a driver that defines replay_case(payload) re-executes it against the current tree (exit 1 while it still fails)."""
+    import json
+    rec = json.load(open(path))
+    print('property  : %s' % rec.get('property', pid))
+    print('signature : %s' % rec.get('signature'))
+    print('what      : %s' % rec.get('what'))
+    print('payload   : %s' % json.dumps(rec.get('payload'), ensure_ascii=False)[:4000])
+    fn = getattr(drv, 'replay_case', None)
+    if fn is None:
+        print('(this driver re-executes whole behaviour families only: run ./check %s --tier quick --seed <seed of the run> to reproduce)' % pid)
+        return 0
+    ok, msg = fn(rec.get('payload'))
+    if not ok:
+        print('VIOLATION property=%s replay=%s' % (pid, path))
+        print('  ' + msg)
+        return 1
+    print('the recorded input no longer violates the property')
+    return 0
 
 
 if __name__ == '__main__':
